@@ -53,6 +53,23 @@ def rt_precip(p):
     return float(np.float64(p / 1000.0) * 1000)
 
 
+def req_fields(q):
+    """(site, S, P, inProgress, travelSoFar, T, siteCost, (temp, wind, precip), staleToday) -- the
+    ninth field (minutes of the previous visit still standing in time_surveyed_current_day of a
+    carried-over report) is optional in a case and defaults to 0"""
+    q = tuple(q)
+    return q[:8] + ((q[8] if len(q) > 8 else 0),)
+
+
+def req_json(q):
+    q = req_fields(q)
+    return list(q[:7]) + [list(q[7]), q[8]]
+
+
+def req_from_json(r):
+    return tuple(r[:7]) + (tuple(r[7]),) + ((r[8],) if len(r) > 8 else (0,))
+
+
 class StubSite:
     """the part of virtual_world.sites.Site the crew / schedule code touches"""
 
@@ -227,7 +244,7 @@ def report_tuple(r):
             int(bool(r.survey_complete)), int(bool(r.survey_in_progress)))
 
 
-def impl_step(R, S, T, P, stationary, workable, cls="method", in_progress=None, rep=None):
+def impl_step(R, S, T, P, stationary, workable, cls="method", in_progress=None, rep=None, today0=0):
     """real survey_site on a real CrewDailyReport / SiteSurveyReport; weather outcome injected by a
     weather cube whose only cell is inside / outside the envelope (real check_weather)"""
     m = _step_method(cls, stationary, True)
@@ -238,7 +255,7 @@ def impl_step(R, S, T, P, stationary, workable, cls="method", in_progress=None, 
     crew = CrewDailyReport(0, R)
     if rep is None:
         ip = (P > 0) if in_progress is None else in_progress
-        rep = fresh_report("s0", P, ip, travel=(T if ip else 0))
+        rep = fresh_report("s0", P, ip, travel=(T if ip else 0), today=today0)
     before = report_tuple(rep)
     out_rep, travel, last, visited = m.survey_site(crew=crew, survey_report=rep, site_to_survey=site,
                                                    weather=weather, curr_date=DATE0)
@@ -250,10 +267,10 @@ def impl_step(R, S, T, P, stationary, workable, cls="method", in_progress=None, 
     }
 
 
-def step_line(R, S, T, P, stationary, workable, in_progress=None, travel_so_far=None):
+def step_line(R, S, T, P, stationary, workable, in_progress=None, travel_so_far=None, today0=0):
     ip = (P > 0) if in_progress is None else in_progress
     tr = (T if ip else 0) if travel_so_far is None else travel_so_far
-    return "step %d %d %d %d %d %d %d %d" % (R, S, T, P, int(stationary), int(workable), int(ip), tr)
+    return "step %d %d %d %d %d %d %d %d %d" % (R, S, T, P, int(stationary), int(workable), int(ip), tr, today0)
 
 
 def impl_step_reply(res):
@@ -272,9 +289,11 @@ def _today_of(res):
 # ------------------------------------------------------------------------------------------------
 # a survey over several days (one site, one crew per day)
 # ------------------------------------------------------------------------------------------------
-def impl_multiday(S, stationary, days, cls="method"):
+def impl_multiday(S, stationary, days, cls="method", steps=None):
     """days = [(R, T, workable, served)]; the same real report object is carried from day to day
-    exactly as SurveyPlanner does; returns per-day (report tuple, minutes today)"""
+    exactly as SurveyPlanner does (so time_surveyed_current_day keeps the previous visit's minutes);
+    returns per-day (report tuple, minutes today); if `steps` is a list it receives per day what the
+    step did to the crew: dict(R, rem, travel, last, visited, before, after) or None"""
     site = StubSite("s0", S)
     planner = SurveyPlanner(site)
     out = []
@@ -282,17 +301,35 @@ def impl_multiday(S, stationary, days, cls="method"):
         rep = planner.get_current_survey_report()
         if rep.survey_complete or not served:
             out.append((report_tuple(rep), 0))
+            if steps is not None:
+                steps.append(None)
             continue
         before = rep.time_surveyed
+        bt = report_tuple(rep)
         m = _step_method(cls, stationary, True)
         m._travel_times = 0 if stationary else T
         wx = (15, 1, 0) if workable else (ENV["temp"][1] + 1, 1, 0)
         d = DATE0 + dt.timedelta(days=k)
-        weather = StubWeather([wx], d.timetuple().tm_yday - 1)
+        weather = _weather_cached(wx, d.timetuple().tm_yday - 1)
         crew = CrewDailyReport(0, R)
-        m.survey_site(crew=crew, survey_report=rep, site_to_survey=site, weather=weather, curr_date=d)
+        res = m.survey_site(crew=crew, survey_report=rep, site_to_survey=site, weather=weather, curr_date=d)
         out.append((report_tuple(rep), rep.time_surveyed - before))
+        if steps is not None:
+            steps.append({"R": R, "rem": crew.day_time_remaining, "travel": res[1], "last": bool(res[2]),
+                          "visited": bool(res[3]), "before": bt, "after": report_tuple(rep)})
     return out
+
+
+_WX_CACHE = {}
+
+
+def _weather_cached(wx, doy0):
+    key = (wx, doy0)
+    if key not in _WX_CACHE:
+        if len(_WX_CACHE) > 4000:
+            _WX_CACHE.clear()
+        _WX_CACHE[key] = StubWeather([wx], doy0)
+    return _WX_CACHE[key]
 
 
 def multiday_line(S, stationary, days):
@@ -327,12 +364,23 @@ def impl_day(case, cost_kw=None):
     """real deploy_crews on a real Workplan of real SurveyPlanners; returns stats, reports, crews
     and the per-visit trace observed by a wrapper around survey_site"""
     (cls, stationary, cost_type, unit_cost, budget, crews, consider_weather, reqs) = case[:8]
+    reqs = [req_fields(q) for q in reqs]
     upfront = case[8] if len(case) > 8 else 0
     sites = []
-    wx = []
-    for j, (sid, S, P, ip, trav, T, scost, w) in enumerate(reqs):
+    for j, (sid, S, P, ip, trav, T, scost, w, td) in enumerate(reqs):
         sites.append(StubSite("s%d" % sid, S, scost, lat=0, lon=j))
-        wx.append(w)
+    m = build_method(cls, stationary, cost_type, unit_cost, budget, crews, consider_weather, sites, upfront, cost_kw)
+    planners = []
+    for s, (sid, S, P, ip, trav, T, scost, w, td) in zip(sites, reqs):
+        pl = SurveyPlanner(s)
+        if P or ip or trav or td:
+            pl._active_survey_report = fresh_report(s.get_id(), P, ip, trav, today=td)
+        planners.append(pl)
+    return run_day(m, sites, planners, reqs, DATE0)
+
+
+def build_method(cls, stationary, cost_type, unit_cost, budget, crews, consider_weather, sites, upfront=0,
+                 cost_kw=None):
     kw = dict(stationary=stationary, workday=1, crews=max(crews, 1), travel=0, upfront=upfront)
     if cost_type == "day":
         kw["per_day"] = unit_cost
@@ -354,15 +402,22 @@ def impl_day(case, cost_kw=None):
     m._max_work_hours = hours_for(budget)
     assert m._max_work_hours * 60 == budget
     TravelScript(m, [])
+    return m
+
+
+def run_day(m, sites, planners, reqs, day):
+    """one real deploy_crews call for the given planners (in this order), with a wrapper around
+    survey_site that scripts the sampled travel time and records every visit.  `sites`, `planners`
+    and `reqs` are parallel; planners may carry reports from earlier days"""
+    by_id = {s.get_id(): j for j, s in enumerate(sites)}
     trace = []
-    orig = m.survey_site
+    orig = m.__class__.survey_site.__get__(m)
 
     def wrapped(crew, survey_report, site_to_survey, weather, curr_date):
         Rb = crew.day_time_remaining
         before = report_tuple(survey_report)
-        # the travel time this visit will sample
-        j = [s.get_id() for s in sites].index(site_to_survey.get_id())
-        m._get_travel_time.seq = [reqs[j][5]]
+        j = by_id[site_to_survey.get_id()]
+        m._get_travel_time.seq = [reqs[j][5]]   # the travel time this visit will sample
         m._get_travel_time.i = 0
         res = orig(crew=crew, survey_report=survey_report, site_to_survey=site_to_survey,
                    weather=weather, curr_date=curr_date)
@@ -373,14 +428,10 @@ def impl_day(case, cost_kw=None):
         return res
 
     m.survey_site = wrapped
-    planners = []
-    for s, (sid, S, P, ip, trav, T, scost, w) in zip(sites, reqs):
-        pl = SurveyPlanner(s)
-        if P or ip or trav:
-            pl._active_survey_report = fresh_report(s.get_id(), P, ip, trav)
-        planners.append(pl)
-    wp = Workplan(planners, DATE0)
-    weather = StubWeather(wx, DATE0.timetuple().tm_yday - 1)
+    for j, s in enumerate(sites):
+        s._lat, s._lon = 0, j
+    wp = Workplan(planners, day)
+    weather = StubWeather([q[7] for q in reqs], day.timetuple().tm_yday - 1)
     stats = m.deploy_crews(wp, weather, StubDaylight(24))
     reports, wp_planners = wp.get_reports()
     r = DayResult()
@@ -399,13 +450,65 @@ def impl_day(case, cost_kw=None):
     return r
 
 
+def impl_campaign(camp):
+    """several consecutive days of the REAL deploy_crews on the same real SurveyPlanner objects, the
+    plan of each day drawn from a real priority queue filled by the real GenericSchedule.update
+    (unfinished first, then unattended, then new) -- so reports really are carried over, with
+    whatever the code leaves in them (time_surveyed_current_day of the previous visit included).
+    camp = dict(cls, budget, crews, per_day_plan, ndays, sites=[(S, T, siteCost)], weather=[[wx per
+    site] per day] or None).  Returns a list of (day case in `impl_day` format -- the state at the
+    start of that day --, DayResult)."""
+    from scheduling.generic_schedule import GenericSchedule
+    from utils.queue import PriorityQueueWithFIFO
+
+    cls, budget, crews = camp["cls"], camp["budget"], camp["crews"]
+    cw = camp.get("weather") is not None
+    sites = [StubSite("s%d" % i, S, sc) for i, (S, T, sc) in enumerate(camp["sites"])]
+    m = build_method(cls, False, "site", 50, budget, crews, cw, sites)
+    planners = {s.get_id(): SurveyPlanner(s) for s in sites}
+    sched = GenericSchedule.__new__(GenericSchedule)
+    sched._method = "M"
+    sched._survey_queue = PriorityQueueWithFIFO()
+    sched._method_crews = max(crews, 1)
+    sched._est_meth_daily_surveys = camp["per_day_plan"]
+    for s in sites:
+        sched.add_to_survey_queue(planners[s.get_id()])
+    out = []
+    for k in range(camp["ndays"]):
+        day = DATE0 + dt.timedelta(days=k)
+        plan = sched.get_daily_sites_to_survey()
+        if not plan:
+            break
+        psites = [pl.get_site() for pl in plan]
+        reqs = []
+        for pl in plan:
+            i = int(pl.get_site().get_id()[1:])
+            (S, T, sc) = camp["sites"][i]
+            rep = pl._active_survey_report
+            wx = tuple(camp["weather"][k % len(camp["weather"])][i]) if cw else (15, 1, 0)
+            if rep is None:
+                reqs.append((i, S, 0, False, 0, T, sc, wx, 0))
+            else:
+                t = report_tuple(rep)
+                reqs.append((i, S, t[0], bool(t[4]), t[2], T, sc, wx, t[1]))
+        case = (cls, False, "site", 50, budget, crews, cw, reqs, 0)
+        r = run_day(m, psites, plan, reqs, day)
+        out.append((case, r))
+        sched.update(r.workplan, day, False)
+    return out
+
+
+def reqs_token(reqs):
+    return "[" + ",".join(
+        "[%d,%d,%d,%d,%d,%d,%d,%d,%d,%d,%d]" % (sid, S, P, int(ip), trav, T, scost, w[0], w[1], w[2], td)
+        for (sid, S, P, ip, trav, T, scost, w, td) in map(req_fields, reqs)) + "]"
+
+
 def day_line(case):
     (cls, stationary, cost_type, unit_cost, budget, crews, consider_weather, reqs) = case[:8]
     per_site = 1 if cost_type == "site" else 0
     uc = unit_cost if cost_type in ("day", "site") else 0
-    rq = "[" + ",".join(
-        "[%d,%d,%d,%d,%d,%d,%d,%d,%d,%d]" % (sid, S, P, int(ip), trav, T, scost, w[0], w[1], w[2])
-        for (sid, S, P, ip, trav, T, scost, w) in reqs) + "]"
+    rq = reqs_token(reqs)
     e = ENV
     return "day %d %d %d %d %d %d %d [%d,%d,%d,%d,%d,%d] %s" % (
         SCALE_CODE[cls], int(stationary), per_site, uc, budget, crews, int(consider_weather),
@@ -423,7 +526,7 @@ def impl_day_reply(case, r):
     reqs = case[7]
     by_site = {t["site"]: t for t in r.trace}
     parts = []
-    for (sid, S, P, ip, trav, T, scost, w) in reqs:
+    for (sid, S, P, ip, trav, T, scost, w, td) in map(req_fields, reqs):
         key = "s%d" % sid
         rep = r.reports[key]
         t = by_site.get(key)
